@@ -7,9 +7,82 @@ package conn
 // never run (the worker runs ^TestSimWorker$ only).
 
 import (
+	"bytes"
+	"net"
 	"testing"
+	"time"
 
+	altscore "google.golang.org/grpc/credentials/alts/internal"
 	simcore "google.golang.org/grpc/internal/zzverif/core"
 )
 
-func TestSimWorker(t *testing.T) { simcore.WorkerMain(t) }
+type c52BufConn struct {
+	net.Conn
+	in, out *bytes.Buffer
+}
+
+func (c *c52BufConn) Read(b []byte) (int, error)  { return c.in.Read(b) }
+func (c *c52BufConn) Write(b []byte) (int, error) { return c.out.Write(b) }
+func (c *c52BufConn) Close() error                { return nil }
+
+// c52Prewarm touches, outside any run, everything in the record path that
+// initialises itself on first use (crypto self-tests and feature detection,
+// hmac/sha256 for the rekey KDF, error formatting), so that a run behaves the
+// same whether it is the first of its kind in the process or not.
+func c52Prewarm() {
+	// time.NewTimer consults a lazily registered GODEBUG setting on first use
+	tm := time.NewTimer(time.Hour)
+	tm.Stop()
+	tm.Reset(1)
+	<-tm.C
+	<-time.After(1)
+	for _, p := range []string{"gcm", "rekey"} {
+		proto, key := c52Key(p, 1)
+		a, b := new(bytes.Buffer), new(bytes.Buffer)
+		cc, err := NewConnWithMaxFrameSize(&c52BufConn{in: a, out: b}, altscore.ClientSide, proto, key, nil, 8192)
+		if err != nil {
+			panic(err)
+		}
+		sc, err := NewConnWithMaxFrameSize(&c52BufConn{in: b, out: a}, altscore.ServerSide, proto, key, nil, 0)
+		if err != nil {
+			panic(err)
+		}
+		msg := c52Fill(7, 700*1024)
+		for _, n := range []int{1, 5000, 40000, len(msg)} {
+			if _, err := cc.Write(msg[:n]); err != nil {
+				panic(err)
+			}
+			got := 0
+			buf := make([]byte, 70000)
+			for got < n {
+				var k int
+				var err error
+				if got%2 == 0 {
+					k, err = sc.Read(buf[:1+got%50000])
+				} else {
+					var h *[]byte
+					h, k, err = sc.(*conn).ReadOnReady(30000, &c52Pool{})
+					_ = h
+				}
+				if err != nil {
+					panic(err)
+				}
+				got += k
+			}
+		}
+		// authentication failure path
+		sc.Write([]byte("x"))
+		raw := a.Bytes()
+		raw[len(raw)-1] ^= 1
+		if _, err := cc.Read(make([]byte, 8)); err == nil {
+			panic("prewarm: tampering not detected")
+		} else {
+			_ = err.Error()
+		}
+	}
+}
+
+func TestSimWorker(t *testing.T) {
+	c52Prewarm()
+	simcore.WorkerMain(t)
+}
